@@ -22,6 +22,7 @@ func init() {
 }
 
 func runC27(c *eng.Ctx) {
+	pagingEnds(c, "CURSOR-filer-pages")
 
 	// the pages an S3 listing is assembled from come from the filer's paged listing (FilerServer.ListEntries ->
 	// StreamListDirectoryEntries -> doListValidEntries): every refill inside those loops continues behind the last name
